@@ -68,6 +68,21 @@ func universe(thorough bool) []slot {
 	return u
 }
 
+// kindsUniverse is a second, small universe in which every entry kind with its own copy of the diff code (IPv4,
+// IPv6, MPLS) has a same-instance, a cross-instance and a metadata variant.
+func kindsUniverse() []slot {
+	return []slot{
+		{"nh1@D", []*ent{nil, {D, ribx.NHEntry(1, "1.1.1.1")}}},
+		{"nhg1@D", []*ent{nil, {D, ribx.NHGEntry(1, 0, m(1, 1))}}},
+		{"nh1@V", []*ent{nil, {V, ribx.NHEntry(1, "3.3.3.3")}}},
+		{"nhg1@V", []*ent{nil, {V, ribx.NHGEntry(1, 0, m(1, 1))}}},
+		{"v6q@D", []*ent{nil, {D, ribx.V6Entry("2001:db8::/32", 1, "", nil)}, {D, ribx.V6Entry("2001:db8::/32", 1, V, nil)}, {D, ribx.V6Entry("2001:db8::/32", 1, "", []byte{7})}}},
+		{"mpls100@D", []*ent{nil, {D, ribx.MPLSEntry(100, 1, "", nil)}, {D, ribx.MPLSEntry(100, 1, V, nil)}, {D, ribx.MPLSEntry(100, 1, "", []byte{7})}}},
+		{"v6q@V", []*ent{nil, {V, ribx.V6Entry("2001:db8::/32", 1, D, nil)}}},
+		{"mpls100@V", []*ent{nil, {V, ribx.MPLSEntry(100, 1, "", nil)}}},
+	}
+}
+
 // state is a choice of one alternative per slot.
 type state []int
 
@@ -245,8 +260,29 @@ func one(u []slot, in, tg state, tv int, base uint64) (string, []fail) {
 
 // Run decides C15.
 func Run(rep *report.Report, tier string) {
+	outcomes := map[string]int{}
+	tot := map[string]int{}
+	runUniverse(rep, tier, "main", universe(tier == "thorough"), outcomes, tot)
+	runUniverse(rep, tier, "entry-kinds", kindsUniverse(), outcomes, tot)
+	rep.Set("catalogue_states", tot["cat"])
+	rep.Set("evaluations", tot["jobs"])
+	rep.Set("distinct_nontrivial", tot["jobs"]-outcomes["equal/0-ops"])
+	rep.Set("states", tot["cat"])
+	rep.Set("transitions", tot["jobs"])
+	rep.Set("traces_validated_against_impl", tot["jobs"])
+	rep.Set("exhaustive", true)
+	rep.Set("rule", "two universes (main; entry-kinds: IPv6 and MPLS with same-instance, cross-instance and metadata variants); catalogue = every reference-closed choice of one payload variant (or absence) per key of the universe; cases = ordered pairs of catalogue states x variants of a target-only network instance x map iteration orders (quick: ascending, descending; thorough: also their rotations by 1 and 2 = all orders of a 3-element map); trivial = equal pair without target-only entries")
+	keys := make([]string, 0, len(outcomes))
+	for k := range outcomes {
+		keys = append(keys, k)
+	}
+	sort.Strings(keys)
+	rep.Set("distinct_outcomes", len(keys))
+	rep.Set("outcome_histogram", outcomes)
+}
+
+func runUniverse(rep *report.Report, tier, uname string, u []slot, outcomes map[string]int, tot map[string]int) {
 	orders := rt.MapOrders(tier == "thorough")
-	u := universe(tier == "thorough")
 	cat := catalogue(u)
 	type job struct{ i, j, tv int }
 	var jobs []job
@@ -261,7 +297,6 @@ func Run(rep *report.Report, tier string) {
 			}
 		}
 	}
-	outcomes := map[string]int{}
 	var mu sync.Mutex
 	// both iteration orders of the maps the reconciler (and the RIB) walk: the order in which operations of one
 	// category are emitted, and with it the id each one gets, follows the map order
@@ -283,7 +318,7 @@ func Run(rep *report.Report, tier string) {
 					outcomes[oc]++
 					mu.Unlock()
 					for _, f := range fs {
-						rep.Violate(f.sig, f.what, map[string]any{"intended": describe(u, cat[jb.i]), "target": describe(u, cat[jb.j]), "target_only_instance": tonly[jb.tv].name, "id_base": base, "map_order": rt.MapOrderName(order)})
+						rep.Violate(f.sig, f.what, map[string]any{"intended": describe(u, cat[jb.i]), "target": describe(u, cat[jb.j]), "universe": uname, "target_only_instance": tonly[jb.tv].name, "id_base": base, "map_order": rt.MapOrderName(order)})
 					}
 				}
 			}()
@@ -295,21 +330,9 @@ func Run(rep *report.Report, tier string) {
 		wg.Wait()
 	}
 	rt.MapOrder = 0
-	rep.Set("catalogue_states", len(cat))
-	rep.Set("evaluations", len(orders)*len(jobs))
-	rep.Set("distinct_nontrivial", len(orders)*len(jobs)-outcomes["equal/0-ops"])
-	rep.Set("states", len(cat))
-	rep.Set("transitions", len(orders)*len(jobs))
-	rep.Set("traces_validated_against_impl", len(orders)*len(jobs))
-	rep.Set("exhaustive", true)
-	rep.Set("rule", "catalogue = every reference-closed choice of one payload variant (or absence) per key of the universe; cases = ordered pairs of catalogue states x variants of a target-only network instance x map iteration orders (quick: ascending, descending; thorough: also their rotations by 1 and 2 = all orders of a 3-element map); trivial = equal pair without target-only entries")
-	keys := make([]string, 0, len(outcomes))
-	for k := range outcomes {
-		keys = append(keys, k)
-	}
-	sort.Strings(keys)
-	rep.Set("distinct_outcomes", len(keys))
-	rep.Set("outcome_histogram", outcomes)
+	tot["cat"] += len(cat)
+	tot["jobs"] += len(orders) * len(jobs)
+	rep.Set("universe:"+uname, map[string]any{"slots": len(u), "catalogue_states": len(cat), "pairs_x_target_only_variants": len(jobs), "map_orders": len(orders)})
 	rep.Sample(map[string]any{"intended": describe(u, cat[len(cat)/2]), "target": describe(u, cat[len(cat)/3]), "target_only_instance": "chain"})
 	rep.Sample(map[string]any{"intended": describe(u, cat[len(cat)-1]), "target": describe(u, cat[0]), "target_only_instance": "absent"})
 }
